@@ -20,12 +20,15 @@ def missStep (b : Build) (rows : List Row) (acc : List Row × Option Nat × Opti
           match lastAdded with
           | some l =>
             if l ≠ p.1 - 1 then
-              match rows.getD (p.1 - 1) default with
-              | .gap g => pure (out ++ [Row.gap g])
-              | .frag _ =>
-                match b.joinGap with
-                | some g => pure (out ++ [Row.gap g])
-                | none => throw .attribute
+              let between := (rows.drop (l + 1)).take (p.1 - (l + 1))
+              if between.all Row.isGap then pure (out ++ between)     -- only gaps separate the two contigs: keep them all
+              else
+                match rows.getD (p.1 - 1) default with
+                | .gap g => pure (out ++ [Row.gap g])
+                | .frag _ =>
+                  match b.joinGap with
+                  | some g => pure (out ++ [Row.gap g])
+                  | none => throw .attribute
             else pure out
           | none => pure out
         pure (out ++ [Row.frag f], some p.1, (match first with | some x => some x | none => some p.1))
@@ -42,6 +45,7 @@ def sepBefore (b : Build) (rows : List Row) (la : Option Nat) (i : Nat) : R (Lis
   | none => .ok []
   | some l =>
     if l = i - 1 then .ok []
+    else if ((rows.drop (l + 1)).take (i - (l + 1))).all Row.isGap then .ok ((rows.drop (l + 1)).take (i - (l + 1)))
     else match rows.getD (i - 1) default with
       | .gap g => .ok [Row.gap g]
       | .frag _ => match b.joinGap with
@@ -67,12 +71,15 @@ theorem missStep_missing (b : Build) (rows : List Row) (out la fi) (i : Nat) (f 
     by_cases hl : l = i - 1
     · simp [hl, bind, Except.bind, pure, Except.pure, Except.map]
     · simp only [ne_eq, hl, not_false_eq_true, ↓reduceIte]
-      cases rows.getD (i - 1) default with
-      | gap g => simp [bind, Except.bind, pure, Except.pure, Except.map]
-      | frag f' =>
-        cases b.joinGap with
-        | none => simp [bind, Except.bind, pure, Except.pure, Except.map, throw, throwThe, MonadExceptOf.throw, Except.instMonad]
-        | some g => simp [bind, Except.bind, pure, Except.pure, Except.map]
+      by_cases hb : ((rows.drop (l + 1)).take (i - (l + 1))).all Row.isGap = true
+      · simp [hb, bind, Except.bind, pure, Except.pure, Except.map]
+      · simp only [hb, Bool.false_eq_true, ↓reduceIte]
+        cases rows.getD (i - 1) default with
+        | gap g => simp [bind, Except.bind, pure, Except.pure, Except.map]
+        | frag f' =>
+          cases b.joinGap with
+          | none => simp [bind, Except.bind, pure, Except.pure, Except.map, throw, throwThe, MonadExceptOf.throw, Except.instMonad]
+          | some g => simp [bind, Except.bind, pure, Except.pure, Except.map]
 
 
 /-! ### facts about row lists -/
@@ -97,10 +104,44 @@ def isMissing (b : Build) (p : Nat × Row) : Bool :=
   | .frag f => !dHas b.found f.keyTuple
   | .gap _ => false
 
-/-- what separators `missingRows` may insert: the input gap row directly in front of a left-over fragment, or the join gap -/
+/-- what separators `missingRows` may insert: an input gap row out of the run of gap rows directly in front of a
+    left-over fragment (row `j` is the gap, row `i` the fragment, rows `j … i-1` are all gaps), or the join gap -/
 def GapOK (b : Build) (rows : List Row) (g : Gap) : Prop :=
-  (∃ i f, rows[i + 1]? = some (.frag f) ∧ dHas b.found f.keyTuple = false ∧ rows[i]? = some (.gap g)) ∨
+  (∃ (j i : Nat) (f : Fragment), j < i ∧ rows[i]? = some (.frag f) ∧ dHas b.found f.keyTuple = false ∧ rows[j]? = some (.gap g) ∧
+    ∀ k, j ≤ k → k < i → ∃ g', rows[k]? = some (.gap g')) ∨
   b.joinGap = some g
+
+theorem isGap_iff (x : Row) : x.isGap = true ↔ ∃ g, x = .gap g := by
+  cases x <;> simp [Row.isGap]
+
+theorem fragmentsOf_all_gaps (l : List Row) (h : ∀ x ∈ l, ∃ g, x = Row.gap g) : fragmentsOf l = [] := by
+  induction l with
+  | nil => rfl
+  | cons x t ih =>
+    obtain ⟨g, rfl⟩ := h x (List.mem_cons_self ..)
+    exact ih (fun y hy => h y (List.mem_cons_of_mem _ hy))
+
+theorem adjPairs_all_gaps (l : List Row) (h : ∀ x ∈ l, ∃ g, x = Row.gap g) : adjPairs l = [] := by
+  induction l with
+  | nil => rfl
+  | cons x t ih =>
+    obtain ⟨g, rfl⟩ := h x (List.mem_cons_self ..)
+    simpa using ih (fun y hy => h y (List.mem_cons_of_mem _ hy))
+
+/-- a non-empty run of gap rows prevents any adjacency across it -/
+theorem adjPairs_append_gaps (l sep r : List Row) (hne : sep ≠ []) (h : ∀ x ∈ sep, ∃ g, x = Row.gap g) :
+    adjPairs (l ++ sep ++ r) = adjPairs l ++ adjPairs r := by
+  rw [adjPairs_append, adjPairs_append, adjPairs_all_gaps sep h]
+  have h1 : seam l sep = [] := by
+    cases sep with
+    | nil => exact absurd rfl hne
+    | cons x t => obtain ⟨g, rfl⟩ := h x (List.mem_cons_self ..); exact C07.seam_gap_right l t g
+  have h2 : seam (l ++ sep) r = [] := by
+    have hl : sep = sep.dropLast ++ [sep.getLast hne] := (List.dropLast_concat_getLast hne).symm
+    obtain ⟨g, hg⟩ := h _ (List.getLast_mem hne)
+    rw [hl, hg, ← List.append_assoc]
+    exact C07.seam_gap_left _ r g
+  rw [h1, h2]; simp
 
 /-- loop invariant: `lastAdded` points at the fragment row that is the last row written -/
 def MInv (rows : List Row) (out : List Row) (la : Option Nat) : Prop :=
@@ -108,28 +149,74 @@ def MInv (rows : List Row) (out : List Row) (la : Option Nat) : Prop :=
   | none => out = []
   | some l => ∃ fl, rows[l]? = some (.frag fl) ∧ out.getLast? = some (.frag fl)
 
-theorem sepBefore_cases (b : Build) (rows : List Row) (la : Option Nat) (i : Nat) (sep : List Row)
+/-- what a separator looks like: only gap rows, each admissible; it is empty only for the first left-over fragment or
+    when the previous left-over fragment is the row directly in front -/
+theorem sepBefore_ok (b : Build) (rows : List Row) (la : Option Nat) (i : Nat) (f : Fragment) (sep : List Row)
+    (hrow : rows[i]? = some (.frag f)) (hf : dHas b.found f.keyTuple = false) (hlt : ∀ l, la = some l → l < i)
     (h : sepBefore b rows la i = .ok sep) :
-    (sep = [] ∧ (la = none ∨ la = some (i - 1))) ∨
-    (∃ g l, sep = [.gap g] ∧ la = some l ∧ l ≠ i - 1 ∧
-      (rows[i - 1]? = some (.gap g) ∨ b.joinGap = some g)) := by
+    (∀ x ∈ sep, ∃ g, x = Row.gap g ∧ GapOK b rows g) ∧ (sep = [] → la = none ∨ la = some (i - 1)) := by
   unfold sepBefore at h
   cases la with
-  | none => simp only at h; cases h; exact Or.inl ⟨rfl, Or.inl rfl⟩
+  | none => simp only at h; cases h; exact ⟨fun x hx => (by cases hx), fun _ => Or.inl rfl⟩
   | some l =>
     simp only at h
+    have hl' : l < i := hlt l rfl
+    have hi : i < rows.length := (List.getElem?_eq_some_iff.mp hrow).1
     by_cases hl : l = i - 1
-    · rw [if_pos hl] at h; cases h; exact Or.inl ⟨rfl, Or.inr (by rw [hl])⟩
+    · rw [if_pos hl] at h; cases h; exact ⟨fun x hx => (by cases hx), fun _ => Or.inr (by rw [hl])⟩
     · rw [if_neg hl] at h
-      cases hr : rows.getD (i - 1) default with
-      | gap g =>
-        rw [hr] at h; simp only at h; cases h
-        exact Or.inr ⟨g, l, rfl, rfl, hl, Or.inl (getD_eq_gap hr)⟩
-      | frag f' =>
-        rw [hr] at h; simp only at h
-        cases hj : b.joinGap with
-        | none => rw [hj] at h; cases h
-        | some g => rw [hj] at h; cases h; exact Or.inr ⟨g, l, rfl, rfl, hl, Or.inr rfl⟩
+      by_cases hb : ((rows.drop (l + 1)).take (i - (l + 1))).all Row.isGap = true
+      · rw [if_pos hb] at h
+        cases h
+        rw [List.all_eq_true] at hb
+        constructor
+        · intro x hx
+          obtain ⟨g, rfl⟩ := (isGap_iff x).mp (hb x hx)
+          refine ⟨g, rfl, Or.inl ?_⟩
+          obtain ⟨k, hk⟩ := List.getElem?_of_mem hx
+          rw [List.getElem?_take] at hk
+          split at hk
+          · next hki =>
+            rw [List.getElem?_drop] at hk
+            refine ⟨l + 1 + k, i, f, by omega, hrow, hf, hk, ?_⟩
+            intro m hm1 hm2
+            have hm : m < rows.length := by omega
+            have hmem : rows[m] ∈ (rows.drop (l + 1)).take (i - (l + 1)) := by
+              apply List.mem_of_getElem? (i := m - (l + 1))
+              rw [List.getElem?_take, if_pos (by omega), List.getElem?_drop]
+              have : l + 1 + (m - (l + 1)) = m := by omega
+              rw [this, List.getElem?_eq_getElem hm]
+            obtain ⟨g', hg'⟩ := (isGap_iff _).mp (hb _ hmem)
+            exact ⟨g', by rw [List.getElem?_eq_getElem hm, hg']⟩
+          · cases hk
+        · intro hnil
+          exfalso
+          have : ((rows.drop (l + 1)).take (i - (l + 1))).length = 0 := by rw [hnil]; rfl
+          simp only [List.length_take, List.length_drop] at this
+          omega
+      · rw [if_neg hb] at h
+        cases hr : rows.getD (i - 1) default with
+        | gap g =>
+          rw [hr] at h; simp only at h; cases h
+          refine ⟨?_, fun hnil => (by cases hnil)⟩
+          intro x hx
+          simp only [List.mem_cons, List.not_mem_nil, or_false] at hx
+          subst hx
+          refine ⟨g, rfl, Or.inl ⟨i - 1, i, f, by omega, hrow, hf, getD_eq_gap hr, ?_⟩⟩
+          intro m hm1 hm2
+          have : m = i - 1 := by omega
+          subst this; exact ⟨g, getD_eq_gap hr⟩
+        | frag f' =>
+          rw [hr] at h; simp only at h
+          cases hj : b.joinGap with
+          | none => rw [hj] at h; cases h
+          | some g =>
+            rw [hj] at h; cases h
+            refine ⟨?_, fun hnil => (by cases hnil)⟩
+            intro x hx
+            simp only [List.mem_cons, List.not_mem_nil, or_false] at hx
+            subst hx
+            exact ⟨g, rfl, Or.inr hj⟩
 
 theorem foldlM_missStep (b : Build) (rows : List Row) (ps : List (Nat × Row)) :
     ∀ (out : List Row) (la fi : Option Nat) (out' : List Row) (la' fi' : Option Nat),
@@ -185,35 +272,27 @@ theorem foldlM_missStep (b : Build) (rows : List Row) (ps : List (Nat × Row)) :
             cases hl
             exact H2a p.1 (List.mem_map_of_mem hp)
           obtain ⟨c1, c2, c3, c4, c5, c6⟩ := ih _ _ _ out' la' fi' H1' H2b H3' hinv' h
-          have hcases := sepBefore_cases b rows la i sep hs
+          obtain ⟨hsepA, hsepB⟩ := sepBefore_ok b rows la i f sep hrow hf
+            (fun l hl => H3 l hl (i, .frag f) (List.mem_cons_self ..)) hs
+          have hsepG : ∀ x ∈ sep, ∃ g, x = Row.gap g := fun x hx => let ⟨g, e, _⟩ := hsepA x hx; ⟨g, e⟩
           refine ⟨?_, ?_, ?_, c4, ?_, ?_⟩
           · rw [c1]
-            have : fragmentsOf sep = [] := by
-              rcases hcases with ⟨rfl, _⟩ | ⟨g, l, rfl, _⟩ <;> rfl
-            simp [fragmentsOf_append, fragmentsOf, this, hf, List.filter_cons]
+            simp [fragmentsOf_append, fragmentsOf, fragmentsOf_all_gaps sep hsepG, hf]
           · intro g hg
             rcases c2 g hg with hm | hok
             · simp only [List.append_assoc, List.mem_append, List.mem_cons, reduceCtorEq, List.not_mem_nil,
                 or_false] at hm
               rcases hm with hm | hm
               · exact Or.inl hm
-              · rcases hcases with ⟨rfl, _⟩ | ⟨g', l, rfl, hla, hne, hsrc⟩
-                · simp at hm
-                · simp only [List.mem_cons, Row.gap.injEq, List.not_mem_nil, or_false] at hm
-                  subst hm
-                  right
-                  rcases hsrc with hsrc | hsrc
-                  · have hlt : l < i := H3 l hla (i, .frag f) (List.mem_cons_self ..)
-                    left
-                    refine ⟨i - 1, f, ?_, hf, hsrc⟩
-                    have : i - 1 + 1 = i := by omega
-                    rw [this]; exact hrow
-                  · exact Or.inr hsrc
+              · obtain ⟨g', e, hok⟩ := hsepA _ hm
+                cases e; exact Or.inr hok
             · exact Or.inr hok
           · intro pr hp
             rcases c3 pr hp with hm | hm
-            · rcases hcases with ⟨rfl, hla⟩ | ⟨g', l, rfl, hla, hne, hsrc⟩
-              · simp only [List.append_nil] at hm
+            · by_cases hnil : sep = []
+              · subst hnil
+                have hla := hsepB rfl
+                simp only [List.append_nil] at hm
                 rw [adjPairs_append] at hm
                 simp only [C07.adjPairs_single, List.append_nil, List.mem_append] at hm
                 rcases hm with hm | hm
@@ -230,20 +309,22 @@ theorem foldlM_missStep (b : Build) (rows : List Row) (ps : List (Nat × Row)) :
                     apply mem_adjPairs_of_getElem? rows (i - 1) fl f hfl1
                     have : i - 1 + 1 = i := by omega
                     rw [this]; exact hrow
-              · rw [adjPairs_append_gap] at hm
+              · rw [adjPairs_append_gaps _ _ _ hnil hsepG] at hm
                 simp only [C07.adjPairs_single, List.append_nil] at hm
                 exact Or.inl hm
             · exact Or.inr hm
           · rw [c5]
-            cases fi <;> simp [List.find?_cons, isMissing, hf]
+            cases fi <;> simp [isMissing, hf]
           · intro g hg
             have := c6 g hg
             cases out with
             | nil =>
               exfalso
-              rcases hcases with ⟨rfl, _⟩ | ⟨g', l, rfl, hla, _⟩
-              · simp at this
-              · subst hla
+              cases la with
+              | none =>
+                have : sep = [] := by unfold sepBefore at hs; simp only at hs; cases hs; rfl
+                subst this; simp at this
+              | some l =>
                 obtain ⟨fl, _, hfl2⟩ := hinv
                 simp at hfl2
             | cons x t => simpa using this
